@@ -106,6 +106,23 @@ func c04SweepDecode(w *world, cfg *runConfig) {
 		cfg.Side[i].ZeroCRC = c&1 != 0
 		c >>= 1
 	}
+	sweepPlacement(w, pl, n, k)
+}
+
+// sweepPlacementCount: number of placements of at most k faults (4 actions) on n packets per direction.
+func sweepPlacementCount(n, k int) int {
+	P, A := 2*n, 4
+	total, c, a := 0, 1, 1
+	for j := 0; j <= k; j++ {
+		total += c * a
+		c = c * (P - j) / (j + 1)
+		a *= A
+	}
+	return total
+}
+
+// sweepPlacement decodes placement number pl into the fault-plan parameters p<j>d / p<j>i / p<j>a.
+func sweepPlacement(w *world, pl, n, k int) {
 	// unrank the placement: number of faults first, then the position set, then the actions
 	P, A := 2*n, 4
 	cnt, comb, act := 0, 1, 1
